@@ -275,6 +275,58 @@ def _exec_chunk(chunk):
     return [execute(c) for c in chunk]
 
 
+def task_context_traces():
+    """The context of a TaskFactory task and of a service task is an `async with Context()` block like any other: when the task is
+    ended through its handle (or by the default teardown action) the block was left by cancellation, and its pass_exception
+    callbacks receive that cancellation. One trace per (kind of task, backend) for the same monitor."""
+    import anyio
+    from asphalt.core import Context, current_context
+    out = []
+    for kind in ("factory-task", "service-task"):
+        for backend in vclock.BACKENDS:
+            events = []
+            log = events.append
+
+            async def main(kind=kind):
+                C = anyio.get_cancelled_exc_class()
+                stash = {}
+
+                def classify(exc):
+                    return "none" if exc is None else ("cancel" if isinstance(exc, C) else "other")
+
+                async def func():
+                    ctx = stash["ctx"] = current_context()
+
+                    def cb(exc):
+                        log({"ev": "cb.begin", "cb": 1, "hasarg": True, "arg": classify(exc)})
+                        log({"ev": "cb.end", "cb": 1, "raised": False, "exc": "none", "cancel": False})
+                    ctx.add_teardown_callback(cb, pass_exception=True)
+                    log({"ev": "reg", "cb": 1, "pass": True})
+                    try:
+                        await anyio.sleep_forever()
+                    except C:
+                        log({"ev": "exit.begin", "how": "cancel", "exc": "cancel"})
+                        raise
+                async with Context() as owner:
+                    if kind == "factory-task":
+                        factory = await owner.start_background_task_factory()
+                        handle = factory.start_task_soon(func, "t")
+                        await vclock.quiescent()
+                        handle.cancel()
+                        await handle.wait_finished()
+                    else:
+                        await owner.start_service_task(func, "svc")       # default teardown action: cancel
+                        await vclock.quiescent()
+                log({"ev": "exit.end", "kind": "cancel", "groups": [], "exc": "cancel", "plainexc": False})
+                log({"ev": "closed", "v": bool(stash["ctx"].closed)})
+            try:
+                vclock.run(main, backend=backend, seed=0, watchdog=True)
+            except BaseException as e:  # noqa: BLE001
+                events.append({"ev": "crash", "what": repr(e)[:200]})
+            out.append({"id": f"taskctx:{kind}:{backend}", "events": events})
+    return out
+
+
 def suite_traces():
     """Run the repository's own test suite with the tracing hook on (ASPHALT_VERIF_HOOKS=trace) and turn what every context did
     with its teardown callbacks into traces for the C01 monitor (one trace per context that ran at least one callback)."""
@@ -374,7 +426,7 @@ def run(tier: str, seed: int) -> core.Report:
     if not need <= set(hits) and not rep.violations:
         raise core.MachineryError(f"vacuous: monitor clauses never exercised: {sorted(need - set(hits))}")
     # code -> spec on an independent workload: the repository's own tests, traced through the guarded hook
-    st = suite_traces()
+    st = suite_traces() + task_context_traces()
     sverd, d2, g2 = core.validate_traces("Trace_C01", st)
     rep.states += d2
     rep.transitions += max(d2, g2)
@@ -406,7 +458,8 @@ def replay(scenario):
         from .. import suitectx
         return suitectx.replay(PROP, scenario)
     if "suite_test" in scenario:
-        st = [t for t in suite_traces() if t["id"] == scenario["suite_test"]]
+        src = task_context_traces() if scenario["suite_test"].startswith("taskctx:") else suite_traces()
+        st = [t for t in src if t["id"] == scenario["suite_test"]]
         verd, _, _ = core.validate_traces("Trace_C01", st)
         return [core.Violation(PROP, v["why"], f"C01:{v['why']}", scenario) for v in verd.values() if not v["ok"]]
     t = execute(dict(scenario["case"], id="replay"))
